@@ -165,3 +165,10 @@ func calleeName(o types.Object) string {
 	}
 	return objPkgPath(fn) + "." + fn.Name()
 }
+
+// ResetCaches clears the per-run memo tables (only the development sweep runs several properties in one process).
+func ResetCaches() {
+	combCache = map[string]string{}
+	semverKeyCount = map[string]int{}
+	currentGM = nil
+}
